@@ -618,7 +618,11 @@ pub fn check(problem: &PProblem, solution: &Value, opts: &OracleOptions) -> Vec<
                                         dynamic_on_board[d] += change;
                                     }
                                 }
-                                check_capacity(&load, &mut f, &format!("after job '{}'", job.id));
+                                // a clustered stop is one visit: the walker carries what is delivered and picked up between the jobs,
+                                // the load of the vehicle is judged when it leaves (as the repository's checker does per stop)
+                                if problem.clustering.is_none() {
+                                    check_capacity(&load, &mut f, &format!("after job '{}'", job.id));
+                                }
                             }
                         }
                     }
@@ -626,6 +630,9 @@ pub fn check(problem: &PProblem, solution: &Value, opts: &OracleOptions) -> Vec<
             }
             if (stop.departure - cur_time).abs() > tol && !(si == stops.len() - 1 && shift.end.is_some()) {
                 f.push(Finding::new("C03:departure", here(&format!("stop {si} departure {} != end of its last activity {}", stop.departure, cur_time))));
+            }
+            if problem.clustering.is_some() {
+                check_capacity(&load, &mut f, &format!("after stop {si}"));
             }
             if !stop.load.is_empty() {
                 // at the end of an interval static pickups are still on board: reported load is after departure
